@@ -1,15 +1,114 @@
 import Uft.Model.Demangle
+import Uft.Lemmas.DemangleSpec
 /-!
 # C13 — Symbol demangling is total, safe and correct for compiler-produced names
+
+Model: `Uft/Model/Demangle.lean` (port of the simple demangler of `utils/demangle.c`,
+tables generated into `Uft/Gen/DemangleTables.lean`).  `Fixes.all` is the code with the
+minimal repairs of findings F10, F10b, F10c, F10d, F10e, F10g; `Fixes.none` is the tree
+as it is (the `c13_prefix_*_witness` theorems show that each finding is real there).
+
+The main lemma `run_spec` (Lemmas/DemangleSpec.lean) proves, by induction on the fuel, a
+summary of each of the 34 mutually recursive grammar functions / loops.
 -/
 namespace Uft.Demangle
 
-/-- bytes of an ASCII string (for the witnesses) -/
-def ascii (s : String) : Array UInt8 := (s.toList.map fun c => c.toNat.toUInt8).toArray
+/-- the part of the name that is parsed (after an optional `_GLOBAL__sub_I_`) -/
+def parsedPart (s : Array UInt8) : Array UInt8 :=
+  if globalPrefix.isPrefixOf s.toList then s.extract 15 s.size else s
 
-/-- F10: a constructor/destructor code before any name was emitted dereferences the NULL
-    output buffer in the code as it is (`/repo/misc/demangler _ZC1v` segfaults) -/
-theorem c13_prefix_ctor_null_witness :
-    demangle Fixes.none #[95, 90, 67, 49, 118] = .crash .nullDeref := by decide
+/-- "a mangled name should start with `_Z`" -/
+def isMangled (s : Array UInt8) : Bool :=
+  (parsedPart s).getD 0 0 == 95 && (parsedPart s).getD 1 0 == 90
+
+/-- the initial parser state and environment of `demangle_simple` -/
+def env0 (fx : Fixes) (s : Array UInt8) : Env := { s := parsedPart s, fx := fx }
+def st0 (s : Array UInt8) : St := { pos := 0, len := (parsedPart s).size }
+
+/-! ## position monotonicity, memory safety of the input side, termination -/
+
+/-- **Position monotonicity** (all 34 grammar functions and loops, repaired code).  Started in a state
+    with `pos ≤ strlen`, `len ≤ strlen` (`old[len]` being the NUL or the `.`/`@` where `dd_encoding`
+    cut the name) and with enough fuel, every grammar function returns normally with
+    `entry pos - δ ≤ pos ≤ strlen` where `δ = 1` for `dd_expression`, `dd_unresolved_name`,
+    `dd_base_unresolved_name`, `dd_simple_id`, `dd_expr_list` (and their loops) — `dd_simple_id` executes
+    `dd->pos--` on a non-digit — and `δ = 0` for all others; `len` never grows; a successful call
+    (`ret ≥ 0`) of a non-loop function consumes at least one character. -/
+theorem c13_pos_monotone (n : Nat) (f : Fn) (e : Env) (st : St) (hfx : e.fx = Fixes.all)
+    (hl : st.len ≤ e.n) (hp : st.pos ≤ e.n) (hs : Stop e st.len) (hfuel : Need f e st n) (hd : delta f ≤ st.pos) :
+    ∃ r st', run n f e st = .ok r st' ∧ st.pos ≤ st'.pos + delta f ∧ st'.pos ≤ e.n ∧
+      st'.len ≤ st.len ∧ st'.len ≤ e.n ∧ Stop e st'.len ∧ Prog f st.pos r st'.pos := by
+  obtain ⟨r, st', h, p1, p2, p3, p4, _, p6, p7, _⟩ := run_spec n f e st hfx hl hp hs hfuel hd
+  refine ⟨r, st', h, ?_, p2, p4, p1, p3, p7⟩
+  have := exN_le st'
+  have : delta f * exN st' ≤ delta f := by
+    cases hx : exN st' with
+    | zero => simp
+    | succ k => have : k = 0 := by omega
+                subst this; simp
+  omega
+
+/-- non-vacuity: the hypotheses hold for the initial state of `demangle_simple` -/
+example (s : Array UInt8) : Need .encoding (env0 Fixes.all s) (st0 s) (8 * ((parsedPart s).size + 1)) := by
+  simp [Need, rank, st0, env0, Env.n]; omega
+
+theorem st0_inv (fx : Fixes) (s : Array UInt8) :
+    (st0 s).len ≤ (env0 fx s).n ∧ (st0 s).pos ≤ (env0 fx s).n ∧ Stop (env0 fx s) (st0 s).len := by
+  refine ⟨Nat.le_refl _, Nat.zero_le _, Or.inl rfl⟩
+
+theorem parsedPart_size_le (s : Array UInt8) : (parsedPart s).size ≤ s.size := by
+  unfold parsedPart
+  split
+  · simp
+  · exact Nat.le_refl _
+
+/-- **Termination in bounded time, memory safety, totality** (repaired code): with any fuel
+    `≥ 8 * (strlen + 1)` the demangler returns a string: it never reads `old[i]` beyond the NUL
+    (`Crash.oob`), never moves `pos` below 0 (`Crash.negPos`), never hits one of the repaired defects,
+    and never runs out of fuel — the depth of the call/iteration chain is at most `8 * strlen + 8`. -/
+theorem c13_fuel_suffices (s : Array UInt8) (fuel : Nat) (hf : 8 * (s.size + 1) ≤ fuel) :
+    ∃ bs, demangleWith Fixes.all fuel s = .str bs := by
+  have hsz := parsedPart_size_le s
+  unfold demangleWith
+  simp only
+  split
+  · exact ⟨_, rfl⟩
+  · obtain ⟨h1, h2, h3⟩ := st0_inv Fixes.all s
+    have hrun := run_spec fuel .encoding (env0 Fixes.all s) (st0 s) rfl h1 h2 h3
+      (by simp [Need, rank, st0, env0, Env.n]; omega) (by simp [delta])
+    obtain ⟨r, st, hr, p1, p2, p3, p4, _⟩ := hrun
+    have hr' : run fuel Fn.encoding { s := parsedPart s, fx := Fixes.all } { pos := 0, len := (parsedPart s).size } =
+        .ok r st := hr
+    unfold parsedPart at hr'
+    rw [hr']
+    simp only
+    split
+    · exact ⟨_, rfl⟩
+    · split
+      · split <;> exact ⟨_, rfl⟩
+      · split
+        · exact ⟨_, rfl⟩
+        · have hrun2 := run_spec fuel .name (env0 Fixes.all s) st rfl p1 p2 p3
+            (by simp [Need, rank, env0, Env.n]; omega) (by simp [delta])
+          obtain ⟨r2, st2, hr2, _⟩ := hrun2
+          have hr2' : run fuel Fn.name { s := parsedPart s, fx := Fixes.all } st = .ok r2 st2 := hr2
+          unfold parsedPart at hr2'
+          rw [hr2']
+          simp only
+          split
+          · exact ⟨_, rfl⟩
+          · split <;> exact ⟨_, rfl⟩
+
+/-- **Totality**: for every byte string the (repaired) demangler returns a string. -/
+theorem c13_total_returns_string (s : Array UInt8) : ∃ bs, demangle Fixes.all s = .str bs :=
+  c13_fuel_suffices s (fuelFor s) (by unfold fuelFor; omega)
+
+/-- **Input-side memory safety** (and absence of every other modelled crash): the result is never a crash,
+    in particular never `Crash.oob` (a read of `old[i]` beyond the terminating NUL). -/
+theorem c13_no_oob (s : Array UInt8) (k : Crash) : demangle Fixes.all s ≠ .crash k := by
+  obtain ⟨bs, h⟩ := c13_total_returns_string s
+  rw [h]
+  intro h'
+  cases h'
 
 end Uft.Demangle
